@@ -431,34 +431,54 @@ def check_C15(tier: str, seed: int) -> int:
         try:
             cfg = os.path.join(scratch, "Context_emit.cfg")
             with open(cfg, "w") as f:
-                f.write(f"SPECIFICATION Spec\nCONSTANTS\n  MaxLen = {5 if quick else 7}\n  MaxDepth = {4 if quick else 5}\n"
+                f.write(f"SPECIFICATION Spec\nCONSTANTS\n  MaxLen = {5 if quick else 6}\n  MaxDepth = {4 if quick else 5}\n"
                         "  TurnInside = TRUE\n  EmitHist = TRUE\nINVARIANT DepthConsistent\nINVARIANT Emit\nPROPERTY ScopedRestore\nCHECK_DEADLOCK FALSE\n")
-            rc, o2, wall = tlc.run_tlc(spec, cfg, workers=1, timeout=3000, heap="8g")
+            # (the dump is streamed from a file: at length 6 it is ~10^6 behaviours; length 7 - tens of gigabytes - was
+            #  dropped from the thorough tier after it exhausted the machine's memory)
+            dump = os.path.join(scratch, "behaviours.out")
+            rc, wall = tlc.run_tlc_to_file(spec, cfg, dump, workers=1, timeout=3000, heap="8g")
+            nbeh = nbad = bad = 0
+            mid = None
+            tailtxt = ""
+            with open(dump) as fdump:
+                for line in fdump:
+                    if not line.startswith('<<"BEHAVIOUR", '):
+                        if "states generated" in line or "Error" in line:
+                            tailtxt += line
+                        continue
+                    body = line.rstrip("\n")[len('<<"BEHAVIOUR", '):]
+                    try:
+                        b = json.loads(json.loads(body[:-2])) if body.endswith(">>") else None
+                    except Exception:  # noqa: BLE001
+                        b = None
+                    if b is None:
+                        bad += 1
+                        continue
+                    nbeh += 1
+                    if nbeh == 1000:
+                        mid = [e["ev"] for e in b]
+                    r = ctx.compare(b)
+                    if r is not None:
+                        nbad += 1
+                        line_, what, pred, obs = r
+                        out.violation({"kind": "context-replay", "rerun": ["ctx", "compare", [b]], "events": [e["ev"] for e in b], "failing_event": line_,
+                                       "predicted_track_guard": pred, "observed_track_guard": obs},
+                                      f"scoped switches: after event {line_} the spec predicts (track, guard)={pred}, the code has {obs}")
+            st2 = tlc.parse_stats(tailtxt)
         finally:
             shutil.rmtree(scratch, ignore_errors=True)
-        behs, bad = replay.parse_behaviours(o2)
-        st2 = tlc.parse_stats(o2)
-        if rc != 0 or bad or not behs:
-            out.machinery(f"Context emission failed rc={rc} bad={bad} n={len(behs)}: {o2[-600:]}")
-        nbad = 0
-        for b in behs:
-            r = ctx.compare(b)
-            if r is not None:
-                nbad += 1
-                line, what, pred, obs = r
-                out.violation({"kind": "context-replay", "rerun": ["ctx", "compare", [b]], "events": [e["ev"] for e in b], "failing_event": line,
-                               "predicted_track_guard": pred, "observed_track_guard": obs},
-                              f"scoped switches: after event {line} the spec predicts (track, guard)={pred}, the code has {obs}")
-        out.judged += len(behs)
-        out.coverage["behaviours_replayed"] = len(behs)
-        out.coverage["behaviours_agreeing"] = len(behs) - nbad
-        out.coverage["replay_stages"] = [{"spec": "Context.tla", "behaviours": len(behs), "max_len": 5 if quick else 7,
-                                          "mode": "exhaustive", "agree": len(behs) - nbad}]
+        if rc != 0 or bad or not nbeh:
+            out.machinery(f"Context emission failed rc={rc} bad={bad} n={nbeh}: {tailtxt[-600:]}")
+        out.judged += nbeh
+        out.coverage["behaviours_replayed"] = nbeh
+        out.coverage["behaviours_agreeing"] = nbeh - nbad
+        out.coverage["replay_stages"] = [{"spec": "Context.tla", "behaviours": nbeh, "max_len": 5 if quick else 6,
+                                          "mode": "exhaustive", "agree": nbeh - nbad}]
         if st2:
             out.coverage["states"] += st2["distinct"]
             out.coverage["transitions"] += st2["generated"]
-        if behs:
-            out.add_sample({"kind": "replayed_context_behaviour", "events": [e["ev"] for e in behs[len(behs) // 2]]})
+        if mid:
+            out.add_sample({"kind": "replayed_context_behaviour", "events": mid})
         # (3) code -> spec: programs run inside random nestings of the scopes, validated against Ref.tla
         # code -> spec on the repository's OWN tests: scope events recorded by the guarded hook, validated against Context.tla
         import shutil as _sh
